@@ -207,11 +207,18 @@ def run_shard(spec):
                     cfg = {"wrapper": "mosek", "solver": "CLARABEL", "verbose": rng.choice([0, 1]), "mode": rng.choice(["dual", "primal"])}
                 case = driver.run_case(prog, cfg)
                 if case.outcome[0] == "exc":
-                    if type(case.outcome[1]).__name__ == "SolverError":
+                    ename = type(case.outcome[1]).__name__
+                    st_ = (case.status or "").lower()
+                    if ename == "SolverError":
                         counters["solver_errors_inconclusive"] = counters.get("solver_errors_inconclusive", 0) + 1
+                    elif any(x in st_ for x in ("unbounded", "infeasible", "dual_infeas", "prim_infeas")):
+                        # the back-end did report "no finite optimum": solve must RETURN no value, not crash
+                        counters["nofinite_models_judged"] = counters.get("nofinite_models_judged", 0) + 1
+                        viol.append({"key": "solve_raises_instead_of_returning_none:" + ename,
+                                     "what": "the back-end reports %s (%s) and solve raised %s: %s instead of returning None"
+                                             % (st_, kind, ename, str(case.outcome[1])[:120]), "program": prog, "config": cfg})
                     else:
-                        counters["nofinite_other_exception:" + type(case.outcome[1]).__name__] = \
-                            counters.get("nofinite_other_exception:" + type(case.outcome[1]).__name__, 0) + 1
+                        counters["nofinite_other_exception:" + ename] = counters.get("nofinite_other_exception:" + ename, 0) + 1
                     continue
                 if case.outcome[0] == "build_exc":
                     continue
@@ -230,6 +237,11 @@ def run_shard(spec):
                 judge_accessors(reachable_objects(case.machine), "after_solve_returned_None", counters, sig, viol, prog)
     # (c) invalid options on bounded models
     bad_opts = [{"return_primal_or_dual": "both"}, {"return_primal_or_dual": "Dual"}, {"return_primal_or_dual": None},
+                {"return_primal_or_dual": "both", "dimension_reduction_heuristic": "trace"},
+                {"return_primal_or_dual": "", "dimension_reduction_heuristic": "logdet1"},
+                {"return_primal_or_dual": "primal ", "dimension_reduction_heuristic": "logdet2"},
+                {"dimension_reduction_heuristic": "foo", "return_primal_or_dual": "primal"},
+                {"dimension_reduction_heuristic": "logdet", "return_primal_or_dual": "primal"},
                 {"dimension_reduction_heuristic": "foo"}, {"dimension_reduction_heuristic": "logdet"},
                 {"dimension_reduction_heuristic": "logdetx"}, {"dimension_reduction_heuristic": "trace1"},
                 {"dimension_reduction_heuristic": "Trace"}, {"dimension_reduction_heuristic": "logdet1.5"},
@@ -248,7 +260,7 @@ def run_shard(spec):
         counters["invalid_option_cases"] = counters.get("invalid_option_cases", 0) + 1
         sig.add("invalid_option|%s" % (sorted(bo.items()),))
         if out[0] == "ok" and out[1] is not None:
-            viol.append({"key": "invalid_option_accepted:%s" % list(bo.keys())[0],
+            viol.append({"key": "invalid_option_accepted:%s" % "+".join(sorted(bo.keys())),
                          "what": "solve(%r) returned %r instead of raising" % (bo, out[1]), "program": prog, "options": bo})
     return {"counters": counters, "signatures": sorted(sig), "samples": samples, "violations": viol[:12],
             "observations": obs, "extra": {"shard_wall_s": round(time.time() - t0, 1)}}
